@@ -1,7 +1,7 @@
 (* Props_C09.v — property theorems for C09 (only statements closed by [exact]). *)
 From Coq Require Import List String Bool Arith.
 Import ListNotations.
-From HolpyV Require Import Kernel KernelLemmas TyMatch FOMatch FOMatchSound.
+From HolpyV Require Import Kernel KernelLemmas TyMatch FOMatch FOMatchSound FOMatchComplete.
 
 (* Type matching (Type.match_incr): for types of consistent arity a successful
    match extends the given instantiation, binds every schematic type variable of
@@ -16,15 +16,32 @@ Print Assumptions C09_type_match_sound.
    binder depth, from any given instantiation), the result extends the given
    instantiation without altering it, binds everything in the pattern, and the
    instantiated pattern equals the target.
-   PARTIAL with respect to C09: completeness for first-order patterns and the
-   higher-order (Miller / heuristic) branches are validated per instance by the
-   harness, not proved. *)
+   PARTIAL with respect to C09: the higher-order (Miller / heuristic) branches
+   are validated per instance by the harness, not proved. *)
 Theorem C09_first_order_match_sound : forall ar pat t depth I I',
   tm_wf ar pat = true -> tm_wf ar t = true ->
   fo_match pat t depth I = Some I' ->
   m_extends I I' /\ covered I' pat /\ tm_eqb (apply_inst I' pat) t = true.
 Proof. exact fo_match_sound. Qed.
 Print Assumptions C09_first_order_match_sound.
+
+(* Completeness for first-order patterns: if some closed, type-correct
+   instantiation J of the pattern equals the target (up to bound names), then
+   matching succeeds from every given instantiation below J (in particular from
+   the empty one), and the result is again below J.  [good J pat depth]: J binds
+   every schematic (type) variable of the pattern, replacements are closed and
+   have the instantiated type of their variable, bound variables of the pattern
+   refer to enclosing binders. *)
+Theorem C09_first_order_match_complete : forall pat t depth I J,
+  m_le I J -> good J pat depth -> tm_eqb (apply_inst J pat) t = true ->
+  exists I', fo_match pat t depth I = Some I' /\ m_le I I' /\ m_le I' J.
+Proof. exact fo_match_complete. Qed.
+Print Assumptions C09_first_order_match_complete.
+
+Theorem C09_type_match_complete : forall T s sJ, extends s sJ -> binds sJ (stvars T) ->
+  exists s', ty_match_incr T (ty_subst sJ T) s = Some s' /\ extends s s' /\ extends s' sJ.
+Proof. exact ty_match_complete. Qed.
+Print Assumptions C09_type_match_complete.
 
 (* the instance of an already matched part never changes later *)
 Theorem C09_instance_stable : forall I J p, m_extends I J -> covered I p -> apply_inst J p = apply_inst I p.
@@ -41,3 +58,18 @@ Example C09_example :
   (exists I, fo_match (Comb (Comb F (SVar "x" T)) (Abs "y" T (SVar "x" T)))
                       (Comb (Comb F (Var "z" T)) (Abs "y" T (Var "z" T))) 0 (mkM [] []) = Some I).
 Proof. vm_compute. split; [reflexivity | eexists; reflexivity]. Qed.
+
+(* non-vacuity of the completeness hypotheses: J = {?x := z, 'a := nat} is good for
+   F ?x (%y. ?x) with F : '?a => ('?a => '?a) => bool *)
+Example C09_complete_example :
+  let A := STVar "a" in let N := TConst "nat" [] in
+  let F T := Var "F" (TFun T (TFun (TFun T T) BoolT)) in
+  let pat := Comb (Comb (F A) (SVar "x" A)) (Abs "y" A (SVar "x" A)) in
+  let J := mkM [("x", Var "z" N)] [("a", N)] in
+  good J pat 0 /\ m_le (mkM [] []) J /\
+  tm_eqb (apply_inst J pat) (Comb (Comb (F N) (Var "z" N)) (Abs "w" N (Var "z" N))) = true.
+Proof.
+  cbn. repeat split; try (intros n U H; discriminate);
+    try (intros n Hn; repeat (destruct Hn as [<-|Hn]; [cbn; discriminate|]); destruct Hn);
+    try (eexists; split; [reflexivity|]; split; reflexivity).
+Qed.
